@@ -20,7 +20,7 @@ func init() { register("C20", checkC20) }
 const pkgCrypto = "types/crypto"
 
 func checkC20(w *World, r *Report) {
-	r.Explanation = "Structural clause of C20 decided from source: (H-1) CheckHRS, which touches its inputs only through comparisons and nil tests, is evaluated on all 108 sign/nil abstractions of its inputs over its CFG and compared with the lexicographic reference; (H-2) in signVote/signProposal the CheckHRS error returns before PrivKey.Sign, Sign is reachable only when sameHRS is false, and on sameHRS the only signature released is the stored one under bytes.Equal / only-differ-by-timestamp; (H-3) saveSigned(h,r,step,signBytes,sig) with the checked and signed values dominates the release of the signature; (H-4) saveSigned stores all five fields before Save(), Save() reaches tempfile.WriteFileAtomic(filePath, MarshalIndent(lss)) and panics on error, all five fields are exported and JSON-tagged; (H-5) the loader unmarshals the state file into the returned state when loadState is true, LoadSFilePV passes true, LoadOrGenSFilePV and the node use that path, step constants are ordered; (H-6) PrivKey.Sign on an SFilePV has no other caller."
+	r.Explanation = "Structural clause of C20 decided from source: (H-1) CheckHRS, which touches its inputs only through comparisons and nil tests, is evaluated on all 108 sign/nil abstractions of its inputs over its CFG and compared with the lexicographic reference; (H-2) in signVote/signProposal the CheckHRS error returns before PrivKey.Sign, Sign is reachable only when sameHRS is false, and on sameHRS the only signature released is the stored one under bytes.Equal / only-differ-by-timestamp; (H-3) saveSigned(h,r,step,signBytes,sig) with the checked and signed values dominates the release of the signature; (H-4) saveSigned stores all five fields before Save(), Save() reaches tempfile.WriteFileAtomic(filePath, MarshalIndent(lss)) and panics on error, all five fields are exported and JSON-tagged; (H-5) the loader unmarshals the state file into the returned state when loadState is true, LoadSFilePV passes true, LoadOrGenSFilePV and the node use that path, step constants are ordered; (H-6) PrivKey.Sign on an SFilePV has no other caller. H-4 also requires that no return of saveSigned avoids the Save call."
 	r.NotCovered = "atomicity/fsync of tendermint's tempfile.WriteFileAtomic; secp256k1; two processes sharing one key file; the canonical sign-bytes encoders of tendermint."
 
 	h1(w, r)
@@ -649,6 +649,16 @@ func h4(w *World, r *Report) {
 	sort.Slice(recs, func(i, j int) bool { return w.FName(recs[i].fn) < w.FName(recs[j].fn) })
 	for _, sum := range recs {
 		nm := sum.fn.Name()
+		// ... on every return: no exit of the recorder avoids the Save call
+		if sum.save != nil {
+			avoid := ""
+			for _, ex := range exitsAvoiding(ipos{sum.fn.Blocks[0], 0}, func(in ssa.Instruction) bool { return in == ssa.Instruction(sum.save.(ssa.Instruction)) }, nil) {
+				if ret, isRet := ex.(*ssa.Return); isRet {
+					avoid = w.InstrPos(ret)
+				}
+			}
+			r.Check(avoid == "", "H-4", nm+":Save:on-every-return", "every return of the recorder has passed Save(): whatever was signed is on disk before the signature is released", nm+" can return without saving the state (a signature is released for a record that only exists in memory; after a restart the same height/round/step is signed again): return at "+avoid, fnSite(w, sum.fn))
+		}
 		r.Check(sum.nSave == 1, "H-4", nm+":Save", "the recorder saves the state exactly once, on the object whose fields it stored", fmt.Sprintf("%s calls Save %d times (expected once)", nm, sum.nSave), site(w, sum.save))
 		for _, f := range []string{"Height", "Round", "Step", "SignBytes", "Signature"} {
 			st, ok := sum.stores[f]
